@@ -210,6 +210,21 @@ Proof.
   - intros (A & B & C & (mid & P & R) & I). repeat split; auto. exists mid. split; [exact P|]. apply E. exact R.
 Qed.
 
+
+(* the loop over the dimensions reads only "type" / "oneOf" along the items chain *)
+Lemma itemsValid_sperm : forall tc (x y : option schema),
+  orel sperm x y -> itemsValid x tc = itemsValid y tc.
+Proof.
+  induction tc as [|c IH n|c IH|]; intros x y R; try reflexivity; cbn [itemsValid];
+    (destruct x as [a|], y as [b|]; cbn [orel] in R; try tauto; try reflexivity;
+     destruct a as [t o d p i], b as [t' o' d' p' i']; apply sperm_unfold in R;
+     destruct R as (<- & <- & <- & _ & Ri);
+     change (inputTypeValidForTypeComponent (Schema t o d p' i') c)
+       with (inputTypeValidForTypeComponent (Schema t o d p i) c);
+     destruct (inputTypeValidForTypeComponent (Schema t o d p i) c); cbn [bind]; try reflexivity;
+     cbn [s_items]; apply IH; exact Ri).
+Qed.
+
 Lemma sperm_refl s : sperm s s.
 Proof.
   induction s as [t o d props items HP HI] using schema_ind'. apply sperm_unfold.
@@ -251,7 +266,13 @@ Proof.
     - apply build_perm; [exact Pm|]. apply Forall_forall. intros kp _. apply PF_entry_ok. }
   split.
   - intros nm. rewrite !processSchema_unfold. destruct d as [d|]; [|cbn; auto].
-    apply requiv_bind; [|intros; unfold finish, inputTypeValidForTypeComponent, inputTypeString; cbn [s_type s_oneof]; apply requiv_refl].
+    apply requiv_bind.
+    2:{ intros q _. unfold finish.
+        destruct (parseABIParameterComponents (erase (FParam nm (d_type d) (d_internal d) (d_indexed d) q))) as [tc| |];
+          cbn [bind]; try (cbn; auto; fail).
+        change (inputTypeValidForTypeComponent (Schema t o (Some d) props' items') tc)
+          with (inputTypeValidForTypeComponent (Schema t o (Some d) props items) tc).
+        cbn [s_items]. rewrite (itemsValid_sperm tc items items' Ri). apply requiv_refl. }
     unfold components_of. destruct (bytes_eqb t jsonObjectType); [exact B|].
     destruct (bytes_eqb t jsonArrayType); [|apply requiv_refl].
     destruct items as [x|], items' as [y|]; cbn in Ri; try tauto; try (cbn; auto; fail).
